@@ -16,6 +16,7 @@ type ModSet struct {
 	Sorts map[string]Sort
 	Types map[string]types.Type
 	All   bool
+	FreshAll bool // may allocate objects of any type (writes nothing that existed before)
 }
 
 func newModSet() *ModSet {
@@ -26,6 +27,10 @@ func (m *ModSet) add(o *ModSet, asFresh bool) bool {
 	changed := false
 	if o.All && !m.All {
 		m.All = true
+		changed = true
+	}
+	if o.FreshAll && !m.FreshAll {
+		m.FreshAll = true
 		changed = true
 	}
 	for c := range o.Old {
@@ -390,17 +395,7 @@ func (p *Program) typedModSet(vc *VC, tc *Contract) *ModSet {
 	}
 	if len(tc.Modifies) == 0 {
 		// "modifies nothing": may allocate anything, writes nothing that existed before
-		sv := p.scratch()
-		for c, srt := range sv.compSort {
-			if c == "$alloc" {
-				continue
-			}
-			ms.Fresh[c] = true
-			ms.Sorts[c] = srt
-			if t, ok := sv.compType[c]; ok {
-				ms.Types[c] = t
-			}
-		}
+		ms.FreshAll = true
 	}
 	for _, e := range tc.Modifies {
 		switch {
